@@ -21,6 +21,24 @@ concrete failing input whenever the disagreement is a symptom of a property viol
 Element types (round 4, seeded C09-8): the generators produce every type the face tables of `_generate_all_faces` know, incl.
 the 12-node hexagonal prism (combinatorial meshes; conforming columns of stacked hexprisms, also mixed with hex / prism); the
 oracle's hand table `FACES` covers it; `C09_face_tables_closed` is a `decide` obligation on the regenerated tables.
+
+Round 5 (seeded C09-10, classes K L M N O Q S):
+* variable TABLES (class K): a variable is what a KEY of nodal_data / elemental_data is bound to; the attribute's own `.name`
+  is free data.  `bind_table` makes the relation key -> name non-trivial and many-to-one on 40 % of the meshes (two keys with
+  attributes of the same name, names of two keys exchanged, a name that is no key - unrelated / lower case / prefix-like -,
+  a second key bound to the same attribute OBJECT, a '<key>_prev' entry carrying the name of `key`; installed by item
+  assignment or `set_attribute_data(key, data, name=...)`).  The oracle and the model always were keyed by the table key;
+  Lean: `C09_table_by_key`, `C09_table_rekey_by_name_counterexample`, `C09_table_rekey_blind` (why key = name tables are blind).
+* value kinds (classes N, L): variables stored as float32 / float16 / int64 / int32 / int8 / uint8 / uint16 / bool, and float64
+  fields whose values are distinct but look equal under np.allclose defaults (`near`, `tiny`); values exactly representable.
+* ids (class N): 0-based, negative, negative + ~2e9 node AND element ids - streams `signed` (all ten operations) and
+  `renumber`, oracle only (the model's ids are naturals).
+* meshes: tet + tet2 / hex + hex2 in one mesh (class O), n_node == n_element (class M).
+* stream `chain` (classes S, Q, C; oracle only): every operation also on DERIVED objects (the result of a first operation,
+  which carries the tables that operation built) and several operations in sequence on ONE live object, some preceded by a
+  refused call; each judged against a snapshot of the object's public state just before the call (`snapshot`).  Reported
+  cases carry the history as `prefix` (`run_hist`).  `remove_useless_nodes` (in place) is always the last call on an object:
+  a facet query after it on the same object is the open C19 family (stale lru_cache after an in-place modification).
 """
 from fractions import Fraction as F
 
@@ -48,6 +66,7 @@ THEOREMS = [
     'C09_self_contained_facets_all', 'C09_exact_selection_facets_all', 'C09_values_attached_facets_all',
     'C09_radix_key_injective', 'C09_radix_key_counterexample',
     'C09_face_tables_closed',
+    'C09_table_by_key', 'C09_filter_keeps_keys', 'C09_table_rekey_by_name_counterexample', 'C09_table_rekey_blind',
 ]
 PARTIAL = []
 RULE = ('meshes: conforming geometric bricks (tet / hex / pyr / prism / mixed, optionally promoted to tet2) and '
@@ -59,7 +78,12 @@ RULE = ('meshes: conforming geometric bricks (tet / hex / pyr / prism / mixed, o
         'structure (2-3 separately numbered dense parts whose offsets are about the node count, ids that are multiples / '
         'digit shifts of each other, strides, max id just above the node count); storage order ascending / descending / '
         'shuffled / looks-sorted, optional unreferenced nodes; 1-3 nodal variables of rank 1-3 and 0-2 elemental variables (single `unknown` block or one block '
-        'per element type) aligned with the mesh, values distinct dyadic rationals; per mesh every operation is run with '
+        'per element type) aligned with the mesh, values distinct dyadic rationals; on 40 % of the meshes the relation table key -> '
+        'FEMAttribute.name of the nodal and / or elemental table is NOT the identity (same name under two keys, swapped names, a name '
+        'that is no key: unrelated / lower case / prefix-like, one attribute object under two keys, a <key>_prev entry named <key>; '
+        'item assignment or set_attribute_data(key, data, name=)); on 30 % variables in float32 / float16 / int64 / int32 / int8 / uint8 / '
+        'uint16 / bool, float64 with a spread below 4e-12, or float64 using all 53 mantissa bits (all values exactly representable); 12 % of the combinatorial meshes mix '
+        'tet + tet2 / hex + hex2; meshes with n_node == n_element; per mesh every operation is run with '
         'singleton / all / random-subset selections in random order (element cuts also with ids that do not exist mixed in); '
         'the ten operations include to_surface(remove_unnecessary_nodes=False) and to_facets(remove_duplicates=False); '
         'stream `renumber` (oracle only): every mesh again under 2 (thorough: 4) other node numberings / storage orders for the '
@@ -68,6 +92,14 @@ RULE = ('meshes: conforming geometric bricks (tet / hex / pyr / prism / mixed, o
         'a case is (mesh, variables, operation, selection); non-trivial when the result differs from the input or the '
         'operation has to re-index (storage order not ascending)')
 ASSUMPTIONS = [
+    'a variable of a mesh is identified by its KEY in nodal_data / elemental_data (that is how the property\'s observables are '
+    'looked up); the `.name` attribute of the FEMAttribute in the result is not judged (to_surface / to_first_order rename it to the key)',
+    'chain stream: the mesh an operation on a live / derived object is judged against is the snapshot of that object\'s public state '
+    '(nodes, elements, every table entry by key) taken immediately before the call; whether an EARLIER call changed the object is '
+    'C19\'s matter, not C09\'s; remove_useless_nodes is the last call on an object (open C19 finding family: stale lru_cache of '
+    'extract_surface after an in-place modification)',
+    'non-positive ids (0-based, negative) are inside "ids unsorted / sparse" for the ORACLE (streams signed, renumber, intensify); the '
+    'Lean model has natural-number ids and is not asked about them',
     'variables are compared as flat rows per id: `filter_with_ids` returns rank-3 data flattened to rank 2 '
     '(observed, counted as `shape:flattened`), which the property (values) does not forbid',
     'selections contain no duplicate ids (DESIGN C09); duplicates yield duplicated elements and are not generated',
@@ -162,6 +194,48 @@ def small_sparse_ids(rnd, n, style=None):
     return ids, 'small:' + style
 
 
+SIGNED_STYLES = ['zero-based', 'negative', 'neg+huge']
+
+
+def signed_ids(rnd, n, style):
+    """round 5 (class N): n distinct ids that are not all positive - 0..n-1 (what a 0-based tool writes), negative and
+    positive ids around zero, negative ids together with ids ~2e9.  The model's ids are naturals: these numberings are used
+    by the oracle-only streams."""
+    if style == 'zero-based':
+        ids = list(range(n))
+    elif style == 'negative':
+        ids = rnd.sample(range(-3 * n - 2, 3 * n + 3), n)
+        if min(ids) >= 0:
+            ids[rnd.randrange(n)] = -rnd.randint(1, 9) - 3 * n - 2
+    else:
+        k = rnd.randint(1, max(1, n - 1))
+        ids = rnd.sample(range(-60 * n, 1), min(k, n)) + rnd.sample(range(2 * 10**9 - 50 * n - 1, 2 * 10**9), n - min(k, n))
+    assert len(set(ids)) == n
+    return ids, 'signed:' + style
+
+
+def renumber_elements(rnd, m, vs, style=None):
+    """the same mesh under another numbering of its ELEMENTS (signed styles): (mesh, variables)"""
+    old = [e for b in m['blocks'].values() for e, _ in b]
+    new, label = signed_ids(rnd, len(old), style or rnd.choice(SIGNED_STYLES))
+    rnd.shuffle(new)
+    mp = dict(zip(old, new))
+    m2 = dict(m)
+    m2['blocks'] = {t: [(mp[e], c) for e, c in b] for t, b in m['blocks'].items()}
+    m2['eid_style'] = label
+    vs2 = dict(vs)
+    vs2['elemental'] = []
+    for v in vs['elemental']:
+        w = dict(v)
+        if 'unknown' in v['blocks']:      # one block in femio's flattened order: ascending ids for a mixed mesh
+            rows = {mp[e]: r for e, r in v['blocks']['unknown']}
+            w['blocks'] = {'unknown': [[e, rows[e]] for e in flat_eids(m2)]}
+        else:
+            w['blocks'] = {t: [[mp[e], r] for e, r in b] for t, b in v['blocks'].items()}
+        vs2['elemental'].append(w)
+    return m2, vs2
+
+
 def renumber(rnd, m, vs=None, style=None, monotone=None, reorder=False):
     """the same mesh (topology, coordinates, element ids) under another numbering of its nodes: (mesh, variables).
     style: one of the `small_sparse_ids` styles, a `meshgen.random_ids` style, or None (drawn);  monotone: the k-th
@@ -169,9 +243,11 @@ def renumber(rnd, m, vs=None, style=None, monotone=None, reorder=False):
     reorder: the storage order of the nodes (and of the aligned nodal variables) is re-drawn too"""
     old = [i for i, _ in m['nodes']]
     if style is None:
-        style = rnd.choice(SMALL_STYLES + ['dense', 'sparse', 'prefix', 'huge'])
+        style = rnd.choice(SMALL_STYLES + ['dense', 'sparse', 'prefix', 'huge'] + SIGNED_STYLES)
     if style in ('parts', 'shifted', 'stride', 'above'):
         new, label = small_sparse_ids(rnd, len(old), style)
+    elif style in SIGNED_STYLES:
+        new, label = signed_ids(rnd, len(old), style)
     else:
         new, label = G.random_ids(rnd, len(old), style)
     if monotone is None:
@@ -192,7 +268,8 @@ def renumber(rnd, m, vs=None, style=None, monotone=None, reorder=False):
     m2['id_style'] = label
     if vs is None:
         return m2, None
-    vs2 = {'elemental': vs['elemental'], 'nodal': []}
+    vs2 = dict(vs)
+    vs2['nodal'] = []
     for v in vs['nodal']:
         w = dict(v)
         if v['ids'] == old:             # aligned with the mesh: stays aligned
@@ -206,6 +283,19 @@ def renumber(rnd, m, vs=None, style=None, monotone=None, reorder=False):
 
 def gen_mesh(rnd, quick=True):
     m = gen_mesh0(rnd, quick)
+    n_el = sum(len(b) for b in m['blocks'].values())
+    if len(m['nodes']) < n_el <= len(m['nodes']) + 4 and rnd.random() < .5:
+        # round 5 (class M): SQUARE meshes, n_node == n_element (code that tells nodal from elemental data by a length):
+        # unreferenced nodes are added until the counts agree
+        used = {i for i, _ in m['nodes']}
+        while len(m['nodes']) < n_el:
+            new = rnd.choice([max(used) + rnd.randint(1, 3), rnd.randint(1, max(used))])
+            if new in used:
+                continue
+            used.add(new)
+            m['nodes'].insert(rnd.randint(0, len(m['nodes'])), (new, tuple(F(rnd.randint(-8, 8), 2) for _ in range(3))))
+            m['n_unref'] = m.get('n_unref', 0) + 1
+        m['order'] = order_class(m)
     if rnd.random() < .3:
         m, _ = renumber(rnd, m, style=rnd.choice(SMALL_STYLES))
     return m
@@ -279,6 +369,10 @@ def gen_mesh0(rnd, quick=True):
         types = None
         if rnd.random() < .35:
             types = rnd.sample(['tri', 'quad', 'tet', 'tet2', 'hex', 'hex2', 'pyr', 'prism', 'hexprism'], rnd.randint(1, 3))
+        if rnd.random() < .12:
+            # round 5 (class O): first- and second-order blocks of the same shape in ONE mesh (they meet after
+            # to_first_order: both are 4- / 8-node blocks then), also next to another type
+            types = rnd.choice([['tet', 'tet2'], ['hex', 'hex2'], ['tet2', 'hex2'], ['tet', 'tet2', 'prism'], ['hex2', 'hex', 'tet']])
         m = G.gen_combinatorial(rnd, types=types, max_elems=10 if quick else 30)
     m['nodes'] = [(i, tuple(F(float(x)) for x in p)) for i, p in m['nodes']]
     return m
@@ -291,47 +385,147 @@ def flat_eids(m):
     return sorted(e for b in m['blocks'].values() for e, _ in b)
 
 
-def rand_rows(rnd, n, shape):
+DTYPES = ['float32', 'int64', 'int32', 'uint8', 'bool', 'float16', 'uint16', 'int8', 'near', 'tiny', 'full']
+# 'near' / 'tiny' (class L): float64 fields whose values are all distinct but "look equal" under np.allclose defaults / an
+# absolute epsilon: 1000 + k 2^-40 (relative spread < 4e-12) and k 2^-50 (absolute size < 4e-12)
+# 'full': float64 values that use all 53 mantissa bits over 40 binades (any narrowing / re-computation of a value shows)
+NP_DTYPE = {'near': 'float64', 'tiny': 'float64', 'full': 'float64'}
+
+
+def rand_rows(rnd, n, shape, dtype='float64'):
+    """n rows of prod(shape) values, every value exactly representable in `dtype` (so that the exact comparison of the
+    values as rationals is meaningful for every dtype); rows distinct where the dtype has room for it"""
     k = int(np.prod(shape)) if shape else 1
+
+    def value():
+        if dtype in ('float64', 'float32'):
+            return F(rnd.randint(-4000, 4000), rnd.choice([1, 2, 4, 8]))
+        if dtype == 'near':
+            return 1000 + F(rnd.randint(0, 4000), 2 ** 40)
+        if dtype == 'tiny':
+            return F(rnd.randint(-4000, 4000), 2 ** 50)
+        if dtype == 'full':
+            return F(rnd.choice([-1, 1]) * (2 ** 52 + rnd.getrandbits(52)), 2 ** rnd.randint(20, 60))
+        if dtype == 'float16':
+            return F(rnd.randint(-1000, 1000), rnd.choice([1, 2]))
+        if dtype in ('int64', 'int32'):
+            return F(rnd.randint(-4000, 4000))
+        if dtype == 'int8':
+            return F(rnd.randint(-128, 127))
+        if dtype == 'uint8':
+            return F(rnd.randint(0, 255))
+        if dtype == 'uint16':
+            return F(rnd.randint(0, 65535))
+        if dtype == 'bool':
+            return F(rnd.randint(0, 1))
+        raise ValueError(dtype)
     used = set()
     rows = []
     for _ in range(n):
-        while True:
-            row = tuple(F(rnd.randint(-4000, 4000), rnd.choice([1, 2, 4, 8])) for _ in range(k))
+        for _attempt in range(30):
+            row = tuple(value() for _ in range(k))
             if row not in used:
-                used.add(row)
                 break
+        used.add(row)
         rows.append(list(row))
     return rows
 
 
 SHAPES = [(), (1,), (3,), (2,), (6,), (3, 3), (2, 2)]
+BIND_STYLES = ['same-name', 'same-name', 'swapped', 'other-name', 'case', 'prefix', 'alias', 'prev']
 
 
-def gen_vars(rnd, m, misaligned=False):
+def bind_table(rnd, vars_, make):
+    """round 5 (class K, seeded C09-10): the relation table key -> FEMAttribute.name is NOT the identity and not injective.
+    A variable is what a KEY of nodal_data / elemental_data is bound to; the attribute's own `.name` is free data
+    (`set_attribute_data(key, data, name=...)`, `table[key2] = table[key]`, a field kept as '<key>_prev' while the key gets
+    the new step).  Styles: same-name (two keys, attributes of the same name), swapped (names of two keys exchanged),
+    other-name / case / prefix (name that is no key: unrelated, lower case, a prefix-like extension), alias (a second key
+    bound to the very same attribute OBJECT), prev (a new key bound to an attribute that carries the name of an existing key).
+    `make(key)` returns a freshly generated variable of the table.  Returns the style applied."""
+    style = rnd.choice(BIND_STYLES)
+    if not vars_:
+        vars_.append(make('V0'))
+    i = rnd.randrange(len(vars_))
+    key = vars_[i]['name']
+    if style in ('same-name', 'swapped') and len(vars_) < 2:
+        style = 'prev'
+    if style == 'same-name':
+        j = rnd.choice([k for k in range(len(vars_)) if k != i])
+        vars_[j]['attr_name'] = key
+    elif style == 'swapped':
+        j = rnd.choice([k for k in range(len(vars_)) if k != i])
+        vars_[i]['attr_name'], vars_[j]['attr_name'] = vars_[j]['name'], key
+    elif style == 'other-name':
+        vars_[i]['attr_name'] = rnd.choice(['X_' + key, 'value', 'T'])
+    elif style == 'case':
+        vars_[i]['attr_name'] = key.lower()
+    elif style == 'prefix':
+        vars_[i]['attr_name'] = rnd.choice([key + '0', key[:-1], key + '_'])
+    elif style == 'alias':
+        w = dict(vars_[i])
+        w['name'], w['alias_of'] = key + rnd.choice(['_REF', '0', '_prev']), i
+        vars_.append(w)
+    else:
+        w = make(key + rnd.choice(['_prev', '_initial', '0']))
+        w['attr_name'] = key
+        vars_.insert(rnd.randint(0, len(vars_)), w)
+    for v in vars_:
+        if 'ids' in v and v.get('attr_name') is not None and v.get('alias_of') is None and rnd.random() < .4:
+            v['via'] = 'set_attribute_data'
+    return style
+
+
+def gen_vars(rnd, m, misaligned=False, bind=None, dtypes=None):
+    """1-3 nodal and 0-2 elemental variables.  bind (default: 40 % of the calls): the key -> name relation of one or both
+    tables is made non-trivial (`bind_table`).  dtypes (default: 30 % of the calls): some variables are stored in another
+    dtype than float64 (float32 / float16 / signed, unsigned and bool integers; the values are exactly representable)."""
     nids = [i for i, _ in m['nodes']]
-    nodal = []
-    for k in range(rnd.randint(1, 3)):
+    bind = False if misaligned else rnd.random() < .4 if bind is None else bind
+    dtypes = rnd.random() < .3 if dtypes is None else dtypes
+
+    def dtype():
+        return rnd.choice(DTYPES) if dtypes and rnd.random() < .6 else 'float64'
+
+    def make_nodal(name):
         shape = rnd.choice(SHAPES)
-        ids = list(nids)
-        nodal.append({'name': f'N{k}', 'shape': list(shape), 'ids': ids, 'rows': rand_rows(rnd, len(ids), shape)})
-    if misaligned:
-        v = nodal[rnd.randrange(len(nodal))]
-        while len(v['ids']) > 1 and v['ids'] == nids:
-            rnd.shuffle(v['ids'])
-        v['misaligned'] = True
-    elemental = []
-    for k in range(rnd.randint(0, 2)):
+        dt = dtype()
+        v = {'name': name, 'shape': list(shape), 'ids': list(nids), 'rows': rand_rows(rnd, len(nids), shape, dt)}
+        if dt != 'float64':
+            v['dtype'] = dt
+        return v
+
+    def make_elemental(name):
         shape = rnd.choice(SHAPES)
+        dt = dtype()
         if rnd.random() < .5:
             ids = flat_eids(m)
-            blocks = {'unknown': [[e, r] for e, r in zip(ids, rand_rows(rnd, len(ids), shape))]}
+            blocks = {'unknown': [[e, r] for e, r in zip(ids, rand_rows(rnd, len(ids), shape, dt))]}
         else:
             blocks = {}
             for t, b in m['blocks'].items():
-                blocks[t] = [[e, r] for (e, _), r in zip(b, rand_rows(rnd, len(b), shape))]
-        elemental.append({'name': f'E{k}', 'shape': list(shape), 'blocks': blocks})
-    return {'nodal': nodal, 'elemental': elemental}
+                blocks[t] = [[e, r] for (e, _), r in zip(b, rand_rows(rnd, len(b), shape, dt))]
+        v = {'name': name, 'shape': list(shape), 'blocks': blocks}
+        if dt != 'float64':
+            v['dtype'] = dt
+        return v
+    nodal = [make_nodal(f'N{k}') for k in range(rnd.randint(1, 3))]
+    elemental = [make_elemental(f'E{k}') for k in range(rnd.randint(0, 2))]
+    vs = {'nodal': nodal, 'elemental': elemental}
+    if bind:
+        which = rnd.choice(['nodal', 'elemental', 'both'])
+        vs['bind'] = []
+        if which != 'elemental':
+            vs['bind'].append('nodal:' + bind_table(rnd, nodal, make_nodal))
+        if which != 'nodal':
+            vs['bind'].append('elemental:' + bind_table(rnd, elemental, make_elemental))
+    if misaligned:
+        v = nodal[rnd.randrange(len(nodal))]
+        while len(v['ids']) > 1 and v['ids'] == nids:
+            v['ids'] = list(v['ids'])
+            rnd.shuffle(v['ids'])
+        v['misaligned'] = True
+    return vs
 
 
 def subset(rnd, pool, style):
@@ -393,21 +587,44 @@ def selections(rnd, m, op):
 
 # ------------------------------------------------------------------ real femio
 
+def np_rows(rows, n, shape, dtype):
+    return np.array([[float(x) for x in r] for r in rows]).reshape([n] + list(shape)).astype(NP_DTYPE.get(dtype, dtype or 'float64'))
+
+
 def build(m, vs):
+    """the FEMData the description (m, vs) stands for.  A variable is bound to the table KEY v['name']; its attribute
+    carries the name v['attr_name'] (default: the key) and is installed by item assignment or, v['via'], through
+    `set_attribute_data(key, data, name=...)`; v['alias_of'] = k binds the key to the attribute OBJECT of the k-th variable."""
     import femio
     from femio import FEMAttribute, FEMElementalAttribute
     femio.FEMData.extract_surface.cache_clear()
     femio.FEMData.filter_first_order_nodes.cache_clear()
     fd = G.to_femio(m)
+    nids = [i for i, _ in m['nodes']]
     for v in vs['nodal']:
-        data = np.array([[float(x) for x in r] for r in v['rows']]).reshape([len(v['ids'])] + list(v['shape']))
-        fd.nodal_data[v['name']] = FEMAttribute(v['name'], np.array(v['ids']), data, silent=True)
+        if v.get('alias_of') is not None:
+            continue
+        data = np_rows(v['rows'], len(v['ids']), v['shape'], v.get('dtype'))
+        name = v.get('attr_name') or v['name']
+        if v.get('via') == 'set_attribute_data' and v['ids'] == nids and fd.nodal_data.are_same_lengths():
+            G.quiet(fd.nodal_data.set_attribute_data, v['name'], data, name=name)
+        else:
+            fd.nodal_data[v['name']] = FEMAttribute(name, np.array(v['ids']), data, silent=True)
+    for v in vs['nodal']:
+        if v.get('alias_of') is not None:
+            fd.nodal_data[v['name']] = fd.nodal_data[vs['nodal'][v['alias_of']]['name']]
     for v in vs['elemental']:
+        if v.get('alias_of') is not None:
+            continue
+        name = v.get('attr_name') or v['name']
         d = {}
         for t, b in v['blocks'].items():
-            data = np.array([[float(x) for x in r] for _, r in b]).reshape([len(b)] + list(v['shape']))
-            d[t] = FEMAttribute(v['name'], np.array([e for e, _ in b]), data, silent=True)
-        fd.elemental_data[v['name']] = G.quiet(FEMElementalAttribute, v['name'], d)
+            d[t] = FEMAttribute(name, np.array([e for e, _ in b]), np_rows([r for _, r in b], len(b), v['shape'], v.get('dtype')),
+                                silent=True)
+        fd.elemental_data[v['name']] = G.quiet(FEMElementalAttribute, name, d)
+    for v in vs['elemental']:
+        if v.get('alias_of') is not None:
+            fd.elemental_data[v['name']] = fd.elemental_data[vs['elemental'][v['alias_of']]['name']]
     return fd
 
 
@@ -482,9 +699,47 @@ def observe(fd):
             'shapes': shapes}
 
 
-def run_real(m, vs, op, sel):
+def snapshot(fd):
+    """description (m, vs) of the CURRENT public state of a live FEMData (nodes, elements, every nodal / elemental variable by
+    table key): what an operation applied to this object now is judged against"""
+    nodes = [(int(i), tuple(row_of(p))) for i, p in zip(fd.nodes.ids, fd.nodes.data)]
+    blocks = {t: [(int(e), [int(n) for n in np.ravel(c)]) for e, c in zip(b.ids, b.data)] for t, b in fd.elements.items()}
+    nodal = []
+    for k, v in fd.nodal_data.items():
+        if k == 'NODE' and v is fd.nodes:
+            continue
+        nodal.append({'name': k, 'shape': list(v.data.shape[1:]), 'ids': [int(i) for i in v.ids], 'rows': [row_of(r) for r in v.data]})
+    elemental = []
+    for k, v in fd.elemental_data.items():
+        elemental.append({'name': k, 'shape': [], 'blocks': {t: [[int(e), row_of(r)] for e, r in zip(b.ids, b.data)] for t, b in v.items()}})
+    m = {'kind': 'derived', 'order': '?', 'nodes': nodes, 'blocks': blocks}
+    m['order'] = order_class(m)
+    return m, {'nodal': nodal, 'elemental': elemental}
+
+
+def run_hist(m, vs, prefix, op, sel):
+    """history on one object: build (m, vs); every prefix entry [kind, op, selection] is applied in turn - kind 'derive': the
+    object under test becomes the RESULT of the call, kind 'call': the result is discarded (an exception too: a refused call) -
+    then the operation is applied to the live object.  Returns (snapshot of the live object just before the operation,
+    outcome) or None when a 'derive' step raises."""
+    fd = build(m, vs)
+    for kind, o, s_ in prefix:
+        try:
+            r = G.quiet(apply_real, fd, o, s_)
+        except Exception:  # noqa
+            if kind == 'derive':
+                return None
+            continue
+        if kind == 'derive':
+            fd = r
+    m1, vs1 = G.quiet(snapshot, fd)
+    return m1, vs1, run_real(m1, vs1, op, sel, fd=fd)
+
+
+def run_real(m, vs, op, sel, fd=None):
     try:
-        fd = build(m, vs)
+        if fd is None:
+            fd = build(m, vs)
         r = G.quiet(apply_real, fd, op, sel)
         out = observe(r)
         if op == 'surface':     # the same object: to_surface() left it untouched (and extract_surface() memoised)
@@ -762,8 +1017,11 @@ def oracle(m, vs, op, sel, out, check_vars=None):
 
 # ------------------------------------------------------------------ run
 
-def case_json(m, vs, op, sel):
-    return {'mesh': G.to_json(m), 'vars': C.jsonable(vs), 'op': op, 'selection': sel}
+def case_json(m, vs, op, sel, prefix=None):
+    j = {'mesh': G.to_json(m), 'vars': C.jsonable(vs), 'op': op, 'selection': sel}
+    if prefix:
+        j['prefix'] = C.jsonable(prefix)     # calls made on the object before the operation (run_hist)
+    return j
 
 
 class Lazy:
@@ -781,12 +1039,18 @@ def order_class(m):
     return 'asc' if ids == sorted(ids) else 'desc' if ids == sorted(ids, reverse=True) else 'shuf'
 
 
-def eval_case(ctx, m, vs, op, style, sel, stream, pending=None):
+def eval_case(ctx, m, vs, op, style, sel, stream, pending=None, live=None):
     """one (mesh, variables, operation, selection): real femio, histograms, property oracle; queued for the model when
-    `pending` is given.  Returns the number of oracle failures reported."""
+    `pending` is given.  live = (object, (m0, vs0, prefix)): the operation is applied to this LIVE object, whose current
+    public state is (m, vs) and which was reached from build(m0, vs0) by the calls of `prefix` (the reported case).
+    Returns the number of oracle failures reported."""
     misaligned = stream == 'misaligned'
-    impl = run_real(m, vs, op, sel)
-    case = Lazy(m, vs, op, sel)
+    if live is None:
+        impl = run_real(m, vs, op, sel)
+        case = Lazy(m, vs, op, sel)
+    else:
+        impl = run_real(m, vs, op, sel, fd=live[0])
+        case = Lazy(live[1][0], live[1][1], op, sel, [list(x) for x in live[1][2]])
     outside = style.startswith('outside:')
     label = f'{op}:{style}'
     n_fail = 0
@@ -848,11 +1112,66 @@ def eval_case(ctx, m, vs, op, style, sel, stream, pending=None):
     return n_fail
 
 
+def inside(rnd, m, op):
+    """one selection of `op` inside the property's quantifier: (style, selection)"""
+    return rnd.choice([x for x in selections(rnd, m, op) if not x[0].startswith('outside:')])
+
+
+def chain(ctx, rnd, m, vs):
+    """round 5 (classes S, Q, C; oracle only): the operations on DERIVED objects and on ONE LIVE object.  op1 is applied to a
+    fresh object; on its result d (which carries whatever tables / caches op1 built or copied) 3-4 further operations are
+    run in sequence, `remove_useless_nodes` (in place) last, some preceded by a call that is refused (a selection outside the
+    quantifier: unknown ids, empty, out of range).  Every operation is judged by the property oracle against a snapshot of the
+    public state of d taken just before it - the property quantifies over every mesh, and d in its current state is one."""
+    op1 = rnd.choice(['cut_eids', 'cut_eids', 'cut_nids', 'extract_idx', 'extract_idx', 'cut_type', 'first_order', 'surface',
+                      'surface_keep', 'facets', 'remove_useless'])
+    _, sel1 = inside(rnd, m, op1)
+    try:
+        d = G.quiet(apply_real, build(m, vs), op1, sel1)
+    except Exception:  # noqa  (judged by the main stream)
+        ctx.count(f'chain:derive:{op1}:raised')
+        return
+    ctx.count(f'chain:derive:{op1}')
+    prefix = [['derive', op1, sel1]]
+    ops2 = rnd.sample([o for o in OPS if o != 'remove_useless'], 3) + (['remove_useless'] if rnd.random() < .5 else [])
+    for op2 in ops2:
+        m1, vs1 = G.quiet(snapshot, d)
+        if not any(m1['blocks'].values()):
+            ctx.count('chain:no-elements-left')
+            return
+        if rnd.random() < .3:       # a refused call on the same object first
+            opx = rnd.choice(['cut_eids', 'cut_type', 'cut_nids', 'extract_idx'])
+            stx, selx = rnd.choice([x for x in selections(rnd, m1, opx) if x[0].startswith('outside:')])
+            try:
+                G.quiet(apply_real, d, opx, selx)
+                ctx.count(f'chain:outside-call:{opx}:{stx}:ok')
+            except Exception:  # noqa
+                ctx.count(f'chain:outside-call:{opx}:{stx}:raised')
+            prefix.append(['call', opx, selx])
+            m1, vs1 = G.quiet(snapshot, d)
+        style, sel2 = inside(rnd, m1, op2)
+        if op2 == 'first_order' and not any('2' in t for t in m1['blocks']) and rnd.random() < .7:
+            continue
+        eval_case(ctx, m1, vs1, op2, style, sel2, 'chain', live=(d, (m, vs, prefix)))
+        prefix.append(['call', op2, sel2])
+
+
 def one_mesh(ctx, rnd, pending, misaligned=False):
     m = gen_mesh(rnd, ctx.quick)
     vs = gen_vars(rnd, m, misaligned=misaligned)
     stream = 'misaligned' if misaligned else 'main'
     if not misaligned:
+        for b in vs.get('bind', []):
+            ctx.count('table-binding:' + b)
+        if not vs.get('bind'):
+            ctx.count('table-binding:key=name')
+        for v in vs['nodal'] + vs['elemental']:
+            ctx.count('var-dtype:' + v.get('dtype', 'float64'))
+            if v.get('via'):
+                ctx.count('var-installed-by:' + v['via'])
+        ctx.count('mesh-square(n_node=n_element):' + ('yes' if len(m['nodes']) == len(flat_eids(m)) else 'no'))
+        if any(t + '2' in m['blocks'] for t in m['blocks']):
+            ctx.count('mesh-mixed-order(t+t2)')
         ctx.count('mesh:' + ('mixed' if len(m['blocks']) > 1 else 'uniform'))
         ctx.count('mesh-order:' + order_class(m))
         ctx.count('mesh-ids:' + str(m.get('id_style')))
@@ -883,6 +1202,19 @@ def one_mesh(ctx, rnd, pending, misaligned=False):
                     (op in ('surface_keep', 'facets_all') and rnd.random() < .75):
                 continue
             eval_case(ctx, m2, vs2, op, '-', None, 'renumber')
+    # ---- signed stream (inside the quantifier "ids unsorted / sparse", oracle only - the model's ids are naturals): node AND
+    # element ids 0-based / negative / negative together with ~2e9, every operation with one selection
+    if rnd.random() < (.2 if ctx.quick else .3):
+        m3, vs3 = renumber(rnd, m, vs, style=rnd.choice(SIGNED_STYLES), reorder=rnd.random() < .3)
+        if rnd.random() < .8:
+            m3, vs3 = renumber_elements(rnd, m3, vs3)
+        ctx.count('signed:ids:' + str(m3['id_style']) + '/' + str(m3.get('eid_style', 'elements-unchanged')))
+        for op in OPS:
+            style, sel = inside(rnd, m3, op)
+            eval_case(ctx, m3, vs3, op, style, sel, 'signed')
+    # ---- chain stream: operations on derived / live objects
+    if rnd.random() < .5:
+        chain(ctx, rnd, m, vs)
 
 
 def intensify(ctx, rnd, m, vs, op, label, budget=40):
@@ -973,7 +1305,14 @@ def replay(ctx, obj):
     for v in vs['elemental']:
         v['blocks'] = {t: [[e, [F(x) for x in r]] for e, r in b] for t, b in v['blocks'].items()}
     op, sel = case['op'], case['selection']
-    impl = run_real(m, vs, op, sel)
+    prefix = case.get('prefix')
+    if prefix:
+        h = run_hist(m, vs, prefix, op, sel)
+        if h is None:
+            return {'op': op, 'selection': sel, 'prefix': prefix, 'fails': False, 'outcome': 'derive-step-raised'}
+        m, vs, impl = h
+    else:
+        impl = run_real(m, vs, op, sel)
     res = {'op': op, 'selection': sel, 'outcome': impl[0] if impl[0] == 'ok' else impl[1]}
     if impl[0] == 'ok':
         bad = oracle(m, vs, op, sel, impl[1])
@@ -983,7 +1322,7 @@ def replay(ctx, obj):
     else:
         res['fails'] = True
         res['violations'] = [('raises', impl[1])]
-    if ctx.driver is not None:
+    if ctx.driver is not None and not prefix and min([i for i, _ in m['nodes']] + flat_eids(m)) >= 0:
         model = parse_model(ctx.driver.ask(model_line(m, vs, op, sel)), vs)
         res['model_agrees'] = not compare(impl, model)
     return res
